@@ -98,6 +98,14 @@ add("C08", "Hypothesis generated instances: closed-form failure probability by q
     "binomial tail; after every step P is compared with the brute-force Pareto set of per-design means of the logged observations.",
     "2-D theta cones only (the bundled cones with beta); K >= 2; Monte-Carlo violation threshold 1e-9.", "DESIGN.md section 3 C08")
 
+add("C06", "stateful property-based testing of whole runs: Hypothesis-generated configurations, invariants after every run_one_step against a recording proxy",
+    "Each generated configuration (nine algorithms x orders incl. K>m facets x confidence types x batch 1..K+3 x costs/budgets x real / empirical / stub models, "
+    "K=1..10 designs or user-defined continuous problems) is run step by step to completion plus three further steps; after every step the harness checks: no "
+    "exception, S shrinking / P growing (VOGP_AD modulo parent->children), S and P disjoint, U within P, no return to S, completion flag <=> (S empty or L rounds or "
+    "budget reached), post-completion steps change nothing and sample nothing, round +1, sample_count and total_cost equal to what the proxy on problem.evaluate logged.",
+    "GP hyper-parameters generated instead of trained (factory name rebound in the algorithm module); no liveness claim (step cap => inconclusive); known findings F7, F12 listed.",
+    "DESIGN.md section 3 C06")
+
 PENDING = {}
 
 
